@@ -326,7 +326,13 @@ func (s *Sim) handle(h *host, raw net.Conn) {
 			prefix = rec.Target
 		}
 	}
-	resp := []byte(s.Expand(respText, h.idx, prefix))
+	reqHost := ""
+	for _, line := range strings.Split(string(rec.Request), "\n") {
+		if len(line) > 5 && strings.EqualFold(line[:5], "host:") {
+			reqHost = strings.TrimSpace(line[5:])
+		}
+	}
+	resp := []byte(strings.ReplaceAll(s.Expand(respText, h.idx, prefix), "%REQHOST%", reqHost))
 	// after the response is decided, note anything else the client sends (smuggled second request, body)
 	extraDone := make(chan []byte, 1)
 	go func() {
